@@ -79,9 +79,16 @@ def gen_spec(rng: np.random.Generator, tier: str, hermitian: bool = True, **forc
         user_atol=float(rng.choice([1e-4, 1e-5, 1e-6, 1e-9])) if rng.random() < 0.15 else 0.0,
         fine_grid=bool(rng.random() < 0.3),
         sympy_class=str(rng.choice(["mutable", "mutable", "immutable", "sparse", "immutable_sparse"])),
+        mixed_pert=bool(rng.random() < 0.25),
     )
     if spec["vtype"] == "sympy" and spec["design"] == "indices" and rng.random() < 0.35:
         spec["container"] = "sympy_matrix"
+        if rng.random() < 0.5:
+            # free symbols with degenerate levels inside fully diagonalised blocks (written in different algebraic forms)
+            spec.update(symbolic=True, degenerate=True, sel="fd_all", complex=False)
+            while sum(spec["sizes"]) > 5:
+                spec["sizes"][int(np.argmax(spec["sizes"]))] -= 1
+            spec["sizes"] = [x for x in spec["sizes"] if x > 0]
     spec.update(force)
     return normalise(spec, thorough)
 
@@ -136,7 +143,7 @@ def normalise(spec: dict, thorough: bool = False) -> dict:
 
 def signature(spec: dict) -> list:
     return [
-        spec["hermitian"], spec["nblocks"], sorted(spec["sizes"]), spec["n_par"], spec["vtype"] + ("-spmatrix" if spec["vtype"] == "sparse" and spec.get("sparse_kind") == "matrix" else ""), spec["complex"], bool(spec.get("offset")), bool(spec.get("near_deg")), bool(spec.get("int_h0")), bool(spec.get("int_all")), bool(spec.get("real_pert")), bool(spec.get("units_exp")), bool(spec.get("user_atol")), bool(spec.get("fine_grid")),
+        spec["hermitian"], spec["nblocks"], sorted(spec["sizes"]), spec["n_par"], spec["vtype"] + ("-spmatrix" if spec["vtype"] == "sparse" and spec.get("sparse_kind") == "matrix" else ""), spec["complex"], bool(spec.get("offset")), bool(spec.get("near_deg")), bool(spec.get("int_h0")), bool(spec.get("int_all")), bool(spec.get("real_pert")), bool(spec.get("units_exp")), bool(spec.get("user_atol")), bool(spec.get("fine_grid")), bool(spec.get("mixed_pert")),
         spec["sel"], spec["design"], spec["container"], spec["extra_orders"], spec["degenerate"], spec["max_total"],
     ]
 
@@ -242,8 +249,11 @@ def build(spec: dict) -> Problem:
         for idx in rng.choice(len(cands), size=k, replace=False):
             term_orders.append(cands[int(idx)])
     nums = {}
-    for o in term_orders:
-        nums[o] = _rand_matrix(rng, N, cplx and not spec.get("real_pert"), herm_values, integer=bool(spec.get("int_all")))
+    mixed = bool(spec.get("mixed_pert")) and cplx and not spec.get("real_pert") and len(term_orders) >= 2
+    for q_, o in enumerate(term_orders):
+        # mixed_pert: real and complex perturbation terms alternate (real hopping + imaginary spin-orbit term)
+        cplx_o = (cplx and not spec.get("real_pert")) if not mixed else bool((q_ + int(spec["case"][0])) % 2)
+        nums[o] = _rand_matrix(rng, N, cplx_o, herm_values, integer=bool(spec.get("int_all")))
     z = (0,) * n_par
 
     bump = np.zeros(N)
@@ -473,7 +483,7 @@ def _encode(p: Problem, rng):
     kwargs = dict(hermitian=p.hermitian)
     terms_enc = {}
     SPARSE_KIND["kind"] = spec.get("sparse_kind", "array")
-    VALUE_OPTS["real_if_possible"] = bool(spec.get("real_pert"))
+    VALUE_OPTS["real_if_possible"] = bool(spec.get("real_pert") or spec.get("mixed_pert"))
     # sympy value class (kronecker_product & co. return immutable matrices); the dressing of `symbolic` problems and the
     # polynomial container need mutable matrices
     VALUE_OPTS["sympy_class"] = spec.get("sympy_class", "mutable") if not (spec.get("symbolic") or spec.get("container") == "sympy_matrix") else "mutable"
@@ -507,6 +517,14 @@ def _encode(p: Problem, rng):
             # noise of L^dagger H_0 R stays far below the library's absolute atol = 1e-12)
             T_re = np.triu(rng.integers(-1, 2, size=(p.N, p.N)), 1)
             T_im = np.triu(rng.integers(-1, 2, size=(p.N, p.N)), 1) if cplx else np.zeros((p.N, p.N), int)
+            plain_first = bool(nb >= 2 and rng.random() < 0.3)
+            if plain_first:
+                # mixed designation: the first subspace is decoupled from the others in T, so its right vectors are
+                # orthonormal and equal to its left vectors - it is passed as a plain basis V, the others as (R, L) pairs
+                s0 = off[1]
+                T_re[:s0, :] = 0
+                T_im[:s0, :] = 0
+                p.notes["plain_first_subspace"] = True
             if p.exact:
                 M1 = gr_eye(p.N)
                 for i in range(p.N):
@@ -536,7 +554,7 @@ def _encode(p: Problem, rng):
                 Rb, Lb = Q[:, cols], Lfull[:, cols]
             else:
                 Rb, Lb = np.array(Q[:, cols]), np.array(Lfull[:, cols])
-            if p.hermitian:
+            if p.hermitian or (b == 0 and p.notes.get("plain_first_subspace")):
                 vecs.append(Rb)
             else:
                 vecs.append((Rb, Lb))
@@ -588,6 +606,11 @@ def _encode(p: Problem, rng):
         p.notes["subs"] = {t: t0, s_: s0}
         levels = {}
 
+        # for the Taylor-expanded sympy-matrix container the library canonicalises the input: equal levels may then be
+        # written in algebraically equal but structurally different forms (factored / expanded)
+        disguise = spec["container"] == "sympy_matrix" and design == "indices" and rng.random() < 0.6
+        seen_levels = set()
+
         def dress0(M, offset_rows=0, offset_cols=0, square=True):
             M = M.copy()
             for i in range(M.rows):
@@ -595,7 +618,14 @@ def _encode(p: Problem, rng):
                 if square and i < M.cols:
                     key = sympy.nsimplify(e)
                     d = levels.setdefault(key, int(rng.integers(-2, 3)))
-                    M[i, i] = e + d * (t - t0)
+                    if disguise:
+                        form = (d * (t - t0) ** 2) if key not in seen_levels else sympy.expand(d * (t - t0) ** 2)
+                        if key in seen_levels and d:
+                            p.notes["disguised_degeneracy"] = True
+                        seen_levels.add(key)
+                        M[i, i] = e + form
+                    else:
+                        M[i, i] = e + d * (t - t0)
             return M
 
         def dress1(M):
@@ -628,7 +658,7 @@ def _encode(p: Problem, rng):
             p.notes["subs"] = subs_all
             kwargs["symbols"] = lam
             if p.fd:
-                kwargs["fully_diagonalize"] = tuple(p.fd)
+                kwargs["fully_diagonalize"] = tuple(p.fd[int(q)] for q in rng.permutation(len(p.fd)))  # (the order of the list is immaterial)
             elif p.masks:
                 kwargs["fully_diagonalize"] = {b: np.array(m) for b, m in p.masks.items()}
             p.hamiltonian = poly
@@ -640,7 +670,7 @@ def _encode(p: Problem, rng):
     else:
         ham = dict(terms_enc)
     if p.fd:
-        kwargs["fully_diagonalize"] = tuple(p.fd)
+        kwargs["fully_diagonalize"] = tuple(p.fd[int(q)] for q in rng.permutation(len(p.fd)))  # (the order of the list is immaterial)
     elif p.masks:
         kwargs["fully_diagonalize"] = {b: np.array(m) for b, m in p.masks.items()}
         if nb == 1 and rng.random() < 0.5:
@@ -675,6 +705,8 @@ def assemble(series, n, p: Problem, exact: bool, energy: bool = False):
             if p.notes.get("subs") and isinstance(blk, (sympy.MatrixBase, sympy.Basic)):
                 blk = blk.subs(p.notes["subs"])  # free (non-perturbative) symbols -> the rationals they stand for
             shape = (p.sizes[i], p.sizes[j])
+            if exact and isinstance(blk, (sympy.MatrixBase, sympy.Basic)) and blk.has(sympy.zoo, sympy.nan, sympy.oo, -sympy.oo):
+                raise Violation(f"the library returned a non-finite symbolic value (zoo / nan / oo) in block {(i, j)} at order {tuple(n)} of a well-posed problem")
             out[off[i]:off[i + 1], off[j]:off[j + 1]] = to_exact(blk, shape) if exact else to_dense(blk, shape)
     if energy and p.notes.get("units") and not exact:
         out = out / p.notes["units"]
